@@ -12,6 +12,7 @@ ap.add_argument("--out", required=True)
 args = ap.parse_args()
 sys.path.insert(0, args.lib)
 from hypothesis import given, settings, seed, HealthCheck, strategies as st
+from tokenizers_standin import NormalizedString  # registers the stand-in for the `tokenizers` package
 import sudachipy
 
 WORLDS = []
@@ -23,7 +24,7 @@ while os.path.isdir(os.path.join(args.worlds, "world%d" % k)):
     k += 1
 MODES = {"A": sudachipy.SplitMode.A, "B": sudachipy.SplitMode.B, "C": sudachipy.SplitMode.C}
 POOL = list("aA1９。、！?.「」 京都東一十百万あいアイーッｱﾞ㍿𠮷😀é") + ["(か)", "ーー", "3.14", "1,000"]
-STATE = {"examples": 0, "failure": None, "samples": []}
+STATE = {"examples": 0, "failure": None, "samples": [], "with_shared_pretokenizer": 0}
 
 
 def observe(tok, text, mode):
@@ -37,6 +38,25 @@ def observe(tok, text, mode):
     return out
 
 
+def pretok_handler(index, ns, ml):
+    return [NormalizedString("%s/%d/%s" % (ns.slice(slice(m.begin(), m.end(), 1)), m.word_id(), m.reading_form())) for m in ml]
+
+
+def make_pretok(dic, spec):
+    """spec = [mode, with_handler]: ONE SudachiPreTokenizer object (per-thread tokenizers and result lists inside)"""
+    kw = {"mode": MODES[spec[0]]}
+    if spec[1]:
+        kw["handler"] = pretok_handler
+    return dic.pre_tokenizer(**kw).obj
+
+
+def observe_pt(pt, text):
+    try:
+        return [str(x) for x in pt(0, NormalizedString(text))]
+    except Exception:
+        return "ERR"
+
+
 def run(ex):
     w = WORLDS[ex["world"] % len(WORLDS)]
     streams = ex["streams"]
@@ -45,6 +65,13 @@ def run(ex):
     for s in streams:
         tok = w["dic"].create()
         want.append([observe(tok, t, m) for (t, m) in s])
+    spec = ex.get("pretok")
+    if spec:
+        # the shared pre-tokenizer object: sequential reference from an object of its own
+        ref = make_pretok(w["dic"], spec)
+        for i, s in enumerate(streams):
+            want[i] = want[i] + [observe_pt(ref, t) for (t, _m) in s]
+        shared = make_pretok(w["dic"], spec)
     got = [None] * len(streams)
     barrier = threading.Barrier(len(streams))
     toks = [w["dic"].create() for _ in streams]
@@ -54,6 +81,8 @@ def run(ex):
         res = []
         for _ in range(ex["repeat"]):
             res = [observe(toks[i], t, m) for (t, m) in streams[i]]
+            if spec:
+                res = res + [observe_pt(shared, t) for (t, _m) in streams[i]]
         got[i] = res
 
     ths = [threading.Thread(target=work, args=(i,)) for i in range(len(streams))]
@@ -64,7 +93,7 @@ def run(ex):
     for i in range(len(streams)):
         if got[i] != want[i]:
             j = next((j for j in range(len(want[i])) if got[i] is None or got[i][j] != want[i][j]), 0)
-            raise AssertionError("thread %d text %r: concurrent result differs from the sequential one" % (i, streams[i][j][0]))
+            raise AssertionError("thread %d text %r%s: concurrent result differs from the sequential one" % (i, streams[i][j % len(streams[i])][0], " (shared pre-tokenizer)" if j >= len(streams[i]) else ""))
 
 
 def strategy():
@@ -73,7 +102,7 @@ def strategy():
         piece = st.one_of(st.sampled_from(keys), st.sampled_from(keys), st.sampled_from(POOL))
         text = st.lists(piece, min_size=1, max_size=12).map("".join)
         item = st.tuples(text, st.sampled_from(["A", "B", "C"]))
-        return st.fixed_dictionaries({"world": st.just(wi), "streams": st.lists(st.lists(item, min_size=3, max_size=25), min_size=2, max_size=8), "repeat": st.integers(1, 4)})
+        return st.fixed_dictionaries({"world": st.just(wi), "streams": st.lists(st.lists(item, min_size=3, max_size=25), min_size=2, max_size=8), "repeat": st.integers(1, 4), "pretok": st.one_of(st.none(), st.tuples(st.sampled_from(["A", "B", "C"]), st.booleans()).map(list))})
     return st.integers(0, len(WORLDS) - 1).flatmap(for_world)
 
 
@@ -81,13 +110,15 @@ def strategy():
 @settings(max_examples=args.examples, database=None, deadline=None, suppress_health_check=list(HealthCheck), print_blob=False)
 @given(strategy())
 def campaign(ex):
-    exj = {"world": ex["world"], "repeat": ex["repeat"], "streams": [[list(x) for x in s] for s in ex["streams"]]}
+    exj = {"world": ex["world"], "repeat": ex["repeat"], "pretok": ex["pretok"], "streams": [[list(x) for x in s] for s in ex["streams"]]}
     STATE["examples"] += 1
     try:
         run(exj)
     except Exception as e:
         STATE["failure"] = {"clause": "threads:" + type(e).__name__, "detail": str(e)[:800], "case": {"python_threads": exj}}
         raise
+    if exj["pretok"]:
+        STATE["with_shared_pretokenizer"] += 1
     if len(STATE["samples"]) < 2:
         STATE["samples"].append({"threads": len(exj["streams"]), "first_stream": exj["streams"][0][:3]})
 
